@@ -262,7 +262,7 @@ func TestCheck(t *testing.T) {
 		"Non-trivial: the request reached the token endpoint of the real node and got an HTTP answer; distinct by (grant, format, defect set).")
 	r.Require(60, 40)
 	r.Assume("presentations are JWT (jwt_vp) signed by harness-owned did:jwk holders; JSON-LD presentations are covered only through the node's own client (valid path)")
-	r.Assume("authorization-code grant: defects at the token endpoint only (client_id, PKCE verifier, replay); defects inside the wallet's OpenID4VP response are not generated")
+	r.Assume("authorization-code grant: defects at the token endpoint (client_id, PKCE verifier, replay) on requests captured from the node's own flow; defects inside the wallet's OpenID4VP response are generated by the leg in openid4vp_test.go")
 
 	policy := map[string]any{"test": map[string]any{"organization": iamflow.OrgPD()}, "other": map[string]any{"organization": otherPD()}}
 	for _, m := range responseMembers {
@@ -626,6 +626,8 @@ func TestCheck(t *testing.T) {
 			}
 		}
 	}
+
+	openid4vpLeg(r, w, revoked, expired, puts) // defects inside the wallet's OpenID4VP response (openid4vp_test.go)
 
 	// ---- introspection ----------------------------------------------------------------------------
 	introspect := func(path, token string) (map[string]any, node.Resp) {
